@@ -48,3 +48,13 @@ Definition c13_model (c : c13_case) : c13_obs :=
 Definition lobs_eqb (a b : lobs) : bool :=
   option_eqb (pair_eqb Z.eqb res_eqb) a b.
 Definition c13_check (x : c13_case * c13_obs) : bool := list_eqb lobs_eqb (c13_model (fst x)) (snd x).
+
+(** C13 also speaks about the driver: compositions run by the scheduler model (FV.Sched) are a second kind of case *)
+Inductive c13_case2 : Type := CLink (c : c13_case) | CSched (c : sched_case).
+Inductive c13_obs2 : Type := OLink (o : c13_obs) | OSched (o : sched_obs).
+Definition c13_check2 (x : c13_case2 * c13_obs2) : bool :=
+  match x with
+  | (CLink c, OLink o) => c13_check (c, o)
+  | (CSched c, OSched o) => sched_check (c, o)
+  | _ => false
+  end.
